@@ -246,7 +246,7 @@ CONFIG = {
              "args": {"quick": [], "thorough": ["--exhaustive", "70000"]},
              "trivial": lambda case, ans: False},
         ],
-        "rule": "24 integer targets x (every type boundary +-3 and small values, each in decimal/hex/binary/octal/underscored/suffixed unquoted spellings and +/space/leading-zero/suffix quoted spellings) + random 1..45-digit strings + 33 scalar targets x 57 literal/meta forms + from_none; thorough adds the exhaustive range [-70000,70000] x 24 x {quoted, unquoted}; distinct by case text, all counted non-trivial",
+        "rule": "24 integer targets x (every type boundary +-3 and small values, each in decimal/hex/binary/octal/underscored/suffixed unquoted spellings and +/space/leading-zero/suffix quoted spellings) + random 1..45-digit strings + 33 scalar targets x 72 literal/meta forms (incl. literal suffixes that disagree with the target type) + from_none + 38 direct calls of the individual trait methods per target; thorough adds the exhaustive range [-70000,70000] x 24 x {quoted, unquoted}; distinct by case text, all counted non-trivial",
         "assumptions": ["std's float parser is a parameter (oracle rows carry str::parse::<f32/f64> bit patterns); syn's literal normalisation (base10_digits) is trusted", "usize/isize are 64-bit on the sandbox target"],
         "partial": "floats: dispatch only (parseF is external)",
     },
@@ -256,7 +256,7 @@ CONFIG = {
             {"name": "c12", "n": {"quick": 60000, "thorough": 600000},
              "trivial": lambda case, ans: False},
         ],
-        "rule": "grid of 7 inner targets x 10 wrappers x 7x10 two-level compositions (567 types), each with from_none and random picks from 50 fixed meta forms (word / list incl. malformed bodies / name-value literal / name-value expression); distinct by case text",
+        "rule": "grid of 7 inner targets x 10 wrappers x 7x10 two-level compositions (567 types), each with from_none, random picks from 50 fixed meta forms (word / list incl. malformed bodies / name-value literal / name-value expression), and 38 direct calls of the individual trait methods (from_word, from_list, from_string, from_bool, from_char, from_value, from_expr — the routes flatten / multiple / hand-written code take around from_meta); distinct by case text",
         "assumptions": ["inner targets so far: bool, u8, i64, String, char, (), Flag (syntax-typed and derived inners are added with C13/C01)"],
     },
     "C13": {
@@ -265,7 +265,7 @@ CONFIG = {
             {"name": "c13", "n": {"quick": 60000, "thorough": 60000},
              "trivial": lambda case, ans: False},
         ],
-        "rule": "exhaustive: all 54 syntax-valued implementors (regenerated macro invocation lists) x 518 item forms (98 values from a grammar of paths / identifiers incl. raw and keywords / expressions / types / visibilities / where-predicates / literal arrays, each bare, quoted and as list body, plus 13 literal spellings; every name-value form also wrapped in an invisible group) + from_none; distinct by case text",
+        "rule": "exhaustive: all 54 syntax-valued implementors (regenerated macro invocation lists) x 751 item forms (113 values from a grammar of paths / identifiers incl. raw and keywords / expressions / types / visibilities / where-predicates / literal arrays, each bare, quoted and as list body — incl. values that are themselves string literals, single-segment global / generic paths, 48-deep nesting — plus 13 literal spellings; every name-value form also wrapped in one (a subset: two) invisible groups, array values also with groups around their elements; 38 direct calls of the individual trait methods per type) + from_none; distinct by case text",
         "assumptions": ["syn's grammar parsers on string contents and syn's printer are external: oracle rows carry syn's own verdict and printed tokens for every string literal in the input"],
         "partial": "relative to syn's print/parse round trip (hypothesis of the agreement theorem, observed by the correspondence only)",
     },
@@ -289,7 +289,7 @@ CONFIG = {
         ],
         # an accepted list that does not survive print + re-parse violates (a) by itself
         "impl_judge": lambda case, ans: "printing and re-parsing the accepted list is not the identity" if ans.startswith("(roundtrip-differs") else None,
-        "rule": "(a) c15a: token streams for NestedMeta::parse_meta_list — exhaustive over a pool of 91 entries (12 literal spellings incl. negative numbers and booleans, 14 path forms incl. `::`-rooted, keyword-rooted and raw ones, 18 name-value forms incl. `true = 1` and arbitrary expressions, 11 list forms to depth 5, 36 dubious forms: stray punctuation, missing values, keywords, half paths): each alone, with trailing / doubled / leading comma, and every ordered pair with and without the comma; plus random lists of 0..5 entries nested to depth 4 with separator mutations; for every token position the harness records what syn's Lit and Meta parsers do when started there (oracle rows); accepted lists are printed and re-parsed by the harness (identity required); (b) c15b exhaustive: all 2^7 probe implementers x {returning Ok, returning a span-less error} x 165 item forms (word, global/raw paths, 23 literal spellings, 12 expression kinds, 16 list bodies incl. malformed, each also wrapped in 1 and 2 invisible groups) + every literal in nested-literal position; distinct by case text",
+        "rule": "(a) c15a: token streams for NestedMeta::parse_meta_list — exhaustive over a pool of 91 entries (12 literal spellings incl. negative numbers and booleans, 14 path forms incl. `::`-rooted, keyword-rooted and raw ones, 18 name-value forms incl. `true = 1` and arbitrary expressions, 11 list forms to depth 5, 36 dubious forms: stray punctuation, missing values, keywords, half paths): each alone, with trailing / doubled / leading comma, and every ordered pair with and without the comma; plus random lists of 0..5 entries nested to depth 4 with separator mutations; for every token position the harness records what syn's Lit and Meta parsers do when started there (oracle rows); accepted lists are printed and re-parsed by the harness (identity required); (b) c15b exhaustive: all 2^7 probe implementers x {returning Ok, returning a span-less error, returning an unspanned bundle of two errors} x 165 item forms (word, global/raw paths, 23 literal spellings, 12 expression kinds, 16 list bodies incl. malformed, each also wrapped in 1 and 2 invisible groups) + every literal in nested-literal position; distinct by case text",
         "assumptions": ["probe hooks are the only overridden methods (from_meta / from_nested_meta left at default), as the statement's 2^7 subsets prescribe", "syn's Lit / Meta parsers and syn's printer are parameters (oracle rows per token position); the model is darling's own look-ahead and comma discipline"],
         "partial": "the print / re-parse identity is judged on the implementation's answers (syn's printer is external), not proved",
     },
@@ -320,7 +320,7 @@ CONFIG = {
             {"name": "c05", "n": {"quick": 20000, "thorough": 400000},
              "trivial": lambda case, ans: "(hist () " in case},
         ],
-        "rule": "random operation histories (0..15 borrowing ops, checkpoints, one consuming end or drop / drop-during-unwind) on the real Accumulator; non-trivial = at least one operation before the end; distinct by case text",
+        "rule": "random operation histories (0..15 borrowing ops, checkpoints, one consuming end or drop / drop-during-unwind) on the real Accumulator, obtained through either public constructor (Error::accumulator(), Accumulator::default()); extend is fed exact-size, filtered, unbounded (from_fn) and darling's own IntoIter iterators; an operation that panics ends the history with a reportable partial trace; non-trivial = at least one operation before the end; distinct by case text",
         "assumptions": ["sequences that use an accumulator after a consuming method are not expressible in safe Rust and are outside the domain"],
     },
 }
